@@ -183,7 +183,12 @@ fn gen_lib(c: &mut Chooser) -> Case {
     tags.push(LP_TAGS[lp]);
     let net = c.free(3, "net");
     tags.push(NET_TAGS[net]);
-    let focus = SShape { layer: LP[lp].0, purpose: LP[lp].1, geom: variants[v].1.clone(), net: NETS[net].map(|s| s.to_string()) };
+    // a mixed-case name may also hold an upper-case letter outside ASCII (lower-casing is not ASCII-only)
+    let uni = if net == 2 { c.cost(2, "net-non-ascii-upper-case") } else { 0 };
+    if uni == 1 {
+        tags.push("net:non-ascii-upper-case");
+    }
+    let focus = SShape { layer: LP[lp].0, purpose: LP[lp].1, geom: variants[v].1.clone(), net: if uni == 1 { Some("\u{dc}BER_Net".to_string()) } else { NETS[net].map(|s| s.to_string()) } };
     // options 5..=20: a named 2x2 neighbour on the same layer and purpose, one unit outside the focus shape's (flush)
     // bounding box on each of its four sides, level with the shape's first / last listed point, listed before / after
     // options 21..=24: the same on each side, but the neighbour is one unit thick and starts right after the focus
@@ -576,7 +581,7 @@ impl CaseDriver for C07Lib {
     fn describe(&self, tier: Tier) -> Describe {
         Describe {
             rule: format!(
-                "raw libraries of 1..3 cells (chain c0 -> c1 -> c2) listed in every order; every instance in all 8 orientations (free); the last cell holds a focus shape: family {FAMILIES:?} (free) x (layer, purpose) in 2 layers x 2 purposes plus obstruction, outline and label purposes and layers numbered 1000 and 32767 (free) x net absent / lower-case / Mixed-Case (free); costed (deviation bound {}): shape variant within the family (both corner orders and mixed corners of rectangles, start vertex and direction of polygons, 1..3 segment paths, widths 2/3/4), units Nano/Micro/Angstrom/Pico, instance offsets {LOCS:?}, angle None vs Some(0), a second placement (elsewhere / on the same origin in another orientation), the top also placing the leaf, named non-leaf shape, a second shape (unnamed same layer+purpose / named same layer other purpose / named other layer same place / named listed first / a named 2x2 neighbour one unit outside the shape's flush bounding box on each side, level with its first or last point, listed before or after; or a neighbour one unit thick starting right after the true extent of the shape, a path then given an odd width; or a differently named small rectangle inside a focus rectangle, listed after it), unit-wide rectangles at negative coordinates, width-1 / backwards-drawn / ring / out-and-back paths (variants of the families), a blank cell (unreferenced / instantiated), two cells whose names differ only in letter case, a cell name of more than 32 characters. Non-trivial = has an instance or a net.",
+                "raw libraries of 1..3 cells (chain c0 -> c1 -> c2) listed in every order; every instance in all 8 orientations (free); the last cell holds a focus shape: family {FAMILIES:?} (free) x (layer, purpose) in 2 layers x 2 purposes plus obstruction, outline and label purposes and layers numbered 1000 and 32767 (free) x net absent / lower-case / Mixed-Case (free; the mixed-case name optionally with an upper-case letter outside ASCII, costed); costed (deviation bound {}): shape variant within the family (both corner orders and mixed corners of rectangles, start vertex and direction of polygons, 1..3 segment paths, widths 2/3/4), units Nano/Micro/Angstrom/Pico, instance offsets {LOCS:?}, angle None vs Some(0), a second placement (elsewhere / on the same origin in another orientation), the top also placing the leaf, named non-leaf shape, a second shape (unnamed same layer+purpose / named same layer other purpose / named other layer same place / named listed first / a named 2x2 neighbour one unit outside the shape's flush bounding box on each side, level with its first or last point, listed before or after; or a neighbour one unit thick starting right after the true extent of the shape, a path then given an odd width; or a differently named small rectangle inside a focus rectangle, listed after it), unit-wide rectangles at negative coordinates, width-1 / backwards-drawn / ring / out-and-back paths (variants of the families), a blank cell (unreferenced / instantiated), two cells whose names differ only in letter case, a cell name of more than 32 characters. Non-trivial = has an instance or a net.",
                 self.bound(tier)
             ),
             assumptions: assumptions(),
@@ -612,6 +617,7 @@ impl CaseDriver for C07Lib {
         require_tags(stats, &FAMILY_TAGS)?;
         require_tags(stats, &ORIENT_TAGS)?;
         require_tags(stats, &NET_TAGS)?;
+        require_tags(stats, &["net:non-ascii-upper-case"])?;
         require_tags(stats, &LP_TAGS)?;
         require_tags(stats, &UNIT_TAGS)?;
         require_tags(stats, &["cells:1", "cells:2", "cells:3", "inst:angle-Some(0)", "inst:second-placement", "inst:shared-leaf", "second:named-same-layer-other-purpose", "second:named-other-layer-same-place", "second:named-listed-first", "second:neighbour-one-unit-away", "blank:unreferenced", "blank:instantiated", "names:case-variants", "gds:label-inside-its-shape"])?;
